@@ -1,5 +1,5 @@
 (* C03 — a task resumes only when all it awaits is done; start order; exactly once per yield.
-   Statements only; proofs in proofs/ProgProofs.v, proofs/MachineC02.v and proofs/MachineSteps.v.
+   Statements only; proofs in proofs/ProgProofs.v, proofs/MachineC02.v, proofs/MachineSteps.v and proofs/MachineC02S.v.
    Proved: (1) the dependencies derived from a yielded structure are exactly its futures, in reverse
    written order for list/tuple structures (with the LIFO task stack: tasks first scheduled together
    start in the order written); (2) on the machine, for tree programs, the scheduler resumes a task
@@ -18,9 +18,18 @@
    finds its task uncomputed (C03_no_step_after_done_when_resumes_are_guarded), and that hypothesis
    holds for tree programs by the C01 invariant (C03_no_step_after_done_tree; pointwise service, no
    unwinding, one root computation from the initial state).
+   (5) [stree] programs = tree programs + synchronous calls of fresh tasks (proofs/MachineC01S.v,
+   proofs/MachineC02S.v; second half of the file): (2) again (C03_resumed_only_when_everything_awaited_is_done_stree);
+   the guard hypothesis of (4) holds for their runs (C03_stree_resumes_are_guarded), hence no step after done for
+   one stree computation from the initial state (C03_no_step_after_done_stree) and for a whole HISTORY of stree
+   (in particular tree) computations on one scheduler in which no computation unwinds and each computation that
+   is followed by another one finished (C03_no_step_after_done_stree_history; C03_stree_clean_history: such a
+   history exists).  The nested scheduler loops of synchronous calls never resume a suspended caller: they only
+   work on tasks at least as young as their wait_for root.
    NOT proved (correspondence, monitors and the watchdog only): that a yield IS eventually resumed
-   (liveness / termination), never-started for never-awaited tasks, no-step-after-done for non-tree
-   programs without the guard hypothesis and for tree programs after a history. *)
+   (liveness / termination), never-started for never-awaited tasks, no-step-after-done for programs outside
+   stree (stored handles, value() on existing futures) without the guard hypothesis, and after a computation
+   that was cut off by the fuel or by the runaway guard. *)
 From Asynq Require Import Machine Seq proofs.ProgProofs proofs.MachineC08 proofs.MachineC01 proofs.MachineC02
   proofs.MachineSteps.
 
@@ -92,3 +101,51 @@ Example C03_three_steps_then_done :
   [EvStep [0%Z] 0 (Ok VNone); EvStep [0%Z] 1 (Ok (VInt 5)); EvStep [0%Z] 2 (Ok (VInt 6)); EvDone [0%Z] (Ok (VInt 6))].
 Proof. exact (conj steps_demo_tree steps_demo_runs). Qed.
 Print Assumptions C03_three_steps_then_done.
+
+(* ==== tree programs WITH SYNCHRONOUS CALLS ([stree]: proofs/MachineC01S.v, proofs/MachineC02S.v) ==== *)
+From Asynq Require Import proofs.MachineC01S proofs.MachineC02S.
+
+Theorem C03_resumed_only_when_everything_awaited_is_done_stree : forall P, pointwise P -> forall p, stree p -> forall n t,
+  let h := fst (create [] (FTask p) (st0 P)) in
+  let s1 := snd (create [] (FTask p) (st0 P)) in
+  no_unwind P n (start h s1) -> c_mode (run P n (start h s1)) = MResume t ->
+  exists tk, get t (c_st (run P n (start h s1))) = Some (mkFut None (KTask tk)) /\
+    forall x, In (RFut x) (leaves (tk_last tk)) -> computed x (c_st (run P n (start h s1))) = true.
+Proof. exact resume_guard_stree. Qed.
+Print Assumptions C03_resumed_only_when_everything_awaited_is_done_stree.
+
+(* the guard hypothesis of C03_no_step_after_done_when_resumes_are_guarded holds for stree runs *)
+Theorem C03_stree_resumes_are_guarded : forall P p n,
+  pointwise P -> stree p ->
+  no_unwind P n (start (fst (create [] (FTask p) (st0 P))) (snd (create [] (FTask p) (st0 P)))) ->
+  resume_guarded P n (start (fst (create [] (FTask p) (st0 P))) (snd (create [] (FTask p) (st0 P)))).
+Proof. exact stree_resume_guarded. Qed.
+Print Assumptions C03_stree_resumes_are_guarded.
+
+Theorem C03_no_step_after_done_stree : forall P p n,
+  pointwise P -> stree p ->
+  no_unwind P n (start (fst (create [] (FTask p) (st0 P))) (snd (create [] (FTask p) (st0 P)))) ->
+  forall t i o l1 l2, snd (run_case P n [p]) = l1 ++ EvStep t i o :: l2 -> forall o', ~ In (EvDone t o') l1.
+Proof. exact stree_no_step_after_done. Qed.
+Print Assumptions C03_no_step_after_done_stree.
+
+(* a whole history of stree computations on one scheduler.  history_clean P fuel ps s: every program is stree, no
+   root computation unwinds, and every computation that is followed by another one finished (MDone) *)
+Theorem C03_no_step_after_done_stree_history : forall P fuel ps,
+  pointwise P -> history_clean P fuel ps (st0 P) ->
+  forall t i o l1 l2, snd (run_case P fuel ps) = l1 ++ EvStep t i o :: l2 -> forall o', ~ In (EvDone t o') l1.
+Proof. exact stree_history_no_step_after_done. Qed.
+Print Assumptions C03_no_step_after_done_stree_history.
+
+(* non-vacuity: the C02 demo program (a synchronous call inside an awaited task, failing siblings) twice on one
+   scheduler is a clean history; the second root [6] and its child [7] are stepped and then done *)
+Example C03_stree_clean_history :
+  let P := mkP [] 1000 false [] in
+  history_clean P 60 [c02s_demo; c02s_demo] (st0 P) /\
+  fst (run_case P 60 [c02s_demo; c02s_demo]) = [Some (Err 42); Some (Err 42)] /\
+  filter (fun e => match e with EvStep [6] _ _ | EvDone [6] _ | EvStep [7] _ _ | EvDone [7] _ => true | _ => false end)
+         (snd (run_case P 60 [c02s_demo; c02s_demo])) =
+  [EvStep [6] 0 (Ok VNone); EvStep [7] 0 (Ok VNone); EvDone [7] (Ok (VTuple [VInt 7; VInt 1]));
+   EvStep [6] 1 (Err 42); EvDone [6] (Err 42)].
+Proof. exact c02s_history_clean. Qed.
+Print Assumptions C03_stree_clean_history.
